@@ -1,7 +1,7 @@
 (* C17 — any command line is either accepted as documented or rejected cleanly.
    Statements only; proofs live in proofs/BindProofs.v and proofs/OptionProofs.v. *)
 From Coq Require Import String.
-From Fzf Require Import Prelude Val BindSpec BindModel BindProofs OptionSpec OptionModel OptionProofs.
+From Fzf Require Import Prelude Val BindSpec BindModel BindProofs BindRoundtrip OptionSpec OptionModel OptionProofs.
 Open Scope Z_scope.
 
 (* maskActionContents never fails and keeps the length: parseKeymap / parseActionList slice the
@@ -89,24 +89,27 @@ Example c17_error_nonvacuous :
   cli env0 [] [] [b "--bind"; b "a:put(x"] = Ok (ExitWith 2 E_UNKNOWN_ACTION).
 Proof. split; vm_compute; reflexivity. Qed.
 
-(* ---------------------------------------------------------------------------------------------
-   bind_roundtrip — FULL STATEMENT, NOT YET PROVED (it is evaluated on every generated well-formed
-   AST against both the implementation and the model by the harness):
+(* Round trip: a well-formed bind expression — any number of bindings, any number of keys per binding,
+   any number of actions per key, each argument written with ANY documented delimiter form (the four
+   bracket pairs, the twelve symmetric delimiters, the trailing colon for the very last action) and
+   containing ANY bytes (the delimiters themselves, + , : action-looking text ...) under the documented
+   restriction wf_bind (no CLOSE followed by + or , inside the argument) — parses to exactly the keymap
+   it denotes: every key receives exactly the listed actions, in order, each argument verbatim; later
+   bindings override earlier ones.  (Key names: any name accepted by key_of_token other than the three
+   punctuation keys , : + ; action names lower case; unbind/rebind/toggle-bind/change-preview-window,
+   whose arguments are parsed again, and the simple `put` are outside wf_bind.) *)
+Theorem bind_roundtrip : forall m bd, wf_bind bd = true ->
+  parse_keymap m (render bd) = Ok (Good (denote m bd)).
+Proof. exact bind_roundtrip_proof. Qed.
+Print Assumptions bind_roundtrip.
 
-   UNPROVED bind_roundtrip : forall m bd, wf_bind bd = true ->
-     parse_keymap m (render bd) = Ok (Good (denote m bd)).
+(* what masking does to a well-formed expression: every argument region, and nothing else, is blanked *)
+Theorem mask_of_render : forall bd, wf_bind bd = true -> mask_action_contents (render bd) = Ok (render_m bd).
+Proof. exact mask_render. Qed.
+Print Assumptions mask_of_render.
 
-   What IS proved is its core, for all inputs: after `:` or `+` and a name that takes an argument,
-   one iteration of the masking loop blanks exactly the region OPEN arg CLOSE — for each of the 16
-   bracket/symmetric delimiter pairs, whatever bytes arg contains (the delimiters themselves, + , :
-   action-looking text ...), under the documented restriction arg_free (no CLOSE followed by + or ,)
-   and when the text goes on with + or , or ends — and leaves everything before it untouched; and the
-   trailing-colon form blanks everything to the end of the string.  Splitting on , + : is done on the
-   blanked text while arguments are sliced from the original at the same offsets (mask_length), which
-   is why the argument comes out verbatim.
-   Missing for the full theorem: composition over several actions/pairs, the escape substitutions
-   being the identity on the blanked text, the split lemmas, and the per-action slice arithmetic. *)
-Theorem bind_roundtrip_partial : forall f u c n canon o ce arg R,
+(* the step lemmas the round trip rests on, for arbitrary surrounding text *)
+Theorem arg_region_hidden : forall f u c n canon o ce arg R,
   inert u = true -> is_colon_plus c = true ->
   assoc_str n arg_actions = Some canon ->
   closer_of o = Some ce -> arg_free ce arg = true ->
@@ -114,13 +117,13 @@ Theorem bind_roundtrip_partial : forall f u c n canon o ce arg R,
   mask_loop (S f) (u ++ c :: n ++ o :: arg ++ ce :: R) =
   do m <- mask_loop f R; Ok ((u ++ c :: n) ++ blanks (length arg + 2) ++ m).
 Proof. exact arg_region_hidden_proof. Qed.
-Print Assumptions bind_roundtrip_partial.
+Print Assumptions arg_region_hidden.
 
-Theorem bind_roundtrip_colon_partial : forall f u c n canon arg,
+Theorem colon_region_hidden : forall f u c n canon arg,
   inert u = true -> is_colon_plus c = true -> assoc_str n arg_actions = Some canon ->
   mask_loop (S f) (u ++ c :: n ++ COLON :: arg) = Ok ((u ++ c :: n) ++ blanks (S (length arg))).
 Proof. exact colon_region_hidden_proof. Qed.
-Print Assumptions bind_roundtrip_colon_partial.
+Print Assumptions colon_region_hidden.
 
 (* non-vacuity: an argument containing its own closing delimiter, '+', ',' and ':' *)
 Example c17_bind_nonvacuous :
@@ -132,4 +135,16 @@ Example c17_bind_nonvacuous :
     Ok (Good [(KCtrl 0, [(b "execute", arg); (b "up", [])])]) /\
   parse_keymap [] (render [([b "ctrl-a"], [AArg (b "execute") (FPair 40 41) arg; ASimple (b "up")])]) =
     Ok (Good (denote [] [([b "ctrl-a"], [AArg (b "execute") (FPair 40 41) arg; ASimple (b "up")])])).
+Proof. cbn zeta. repeat split; vm_compute; reflexivity. Qed.
+
+Example c17_roundtrip_nonvacuous :
+  let bd := [([b "ctrl-a"; b "f2"], [AArg (b "execute") (FPair 59 59) (b ";;x:+"); ASimple (b "toggle-down");
+                                     AArg (b "change-prompt") (FPair 40 41) (b "a)b)c,x")]);
+             ([b "start"], [ASimple (b "preview-top"); AArg (b "reload") FColon (b "ls +a,b:up(x)")])] in
+  wf_bind bd = true /\
+  render bd = b "ctrl-a,f2:execute;;;x:+;+toggle-down+change-prompt(a)b)c,x),start:preview-top+reload:ls +a,b:up(x)" /\
+  denote [] bd =
+    [(KCtrl 0, [(b "execute", b ";;x:+"); (b "toggle", []); (b "down", []); (b "change-prompt", b "a)b)c,x")]);
+     (KF 2, [(b "execute", b ";;x:+"); (b "toggle", []); (b "down", []); (b "change-prompt", b "a)b)c,x")]);
+     (KNamed (b "start"), [(b "preview-top", []); (b "reload", b "ls +a,b:up(x)")])].
 Proof. cbn zeta. repeat split; vm_compute; reflexivity. Qed.
